@@ -14,7 +14,7 @@ def run_cli(script, args, stdin_mode='open', data=b'', timeout=180, env=None, ha
     kw = dict(stdout=subprocess.PIPE, stderr=subprocess.PIPE, cwd=s, env=e)
     master = slave = None
     pre = None
-    if stdin_mode in ('open', 'eof', 'lines', 'lines_open'):
+    if stdin_mode in ('open', 'eof', 'lines', 'lines_open', 'timed'):
         kw['stdin'] = subprocess.PIPE
     elif stdin_mode == 'devnull':
         kw['stdin'] = subprocess.DEVNULL
@@ -58,6 +58,17 @@ def run_cli(script, args, stdin_mode='open', data=b'', timeout=180, env=None, ha
                     p.stdin.close()
             except BrokenPipeError:
                 pass
+        if stdin_mode == 'timed':
+            # data: list of (delay_seconds, bytes) written by a helper thread while the process runs; the pipe stays open afterwards
+            def writer():
+                import time as _t
+                for delay, chunk in data:
+                    _t.sleep(delay)
+                    try:
+                        p.stdin.write(chunk); p.stdin.flush()
+                    except (BrokenPipeError, ValueError, OSError):
+                        return
+            threading.Thread(target=writer, daemon=True).start()
         timed_out = False
         try:
             p.wait(timeout=timeout)
